@@ -355,6 +355,33 @@ fn systematic_histories() -> Vec<History> {
             ],
         });
     }
+    // more than ten test cases: what the tenth and later ones change must carry too (two-digit
+    // indices), and a test case that empties the temporary directory - where scrut keeps the
+    // state - must not cut the chain
+    let plain = |code: &str, tag: &str| Snippet { env: BTreeMap::new(), code: code.to_string(), end: "normal".into(), tag: tag.to_string() };
+    let mut long = vec![];
+    for k in 0..10 {
+        long.push(plain(&format!("VS1=step-{}; VA1+=(e{})", k, k), "var-modify"));
+    }
+    long.push(plain("VS1=ten; f1() { echo ten; }; cd d2", "late-define"));
+    long.push(plain("VS1=\"$VS1+eleven\"; alias a1='echo eleven'; export VE1=late", "late-modify"));
+    long.push(plain("unset -f f1; cd inner", "late-unset"));
+    long.push(plain("true", "use"));
+    out.push(History { real_history: true, id: "sys-long-14".into(), snippets: long.clone() });
+    long.truncate(12);
+    out.push(History { real_history: true, id: "sys-long-12b".into(), snippets: long });
+    for (i, wipe) in ["find \"$VS_TMP\" -mindepth 1 -delete 2>/dev/null; true", "rm -rf \"$VS_TMP\"; mkdir -p \"$VS_TMP\""].iter().enumerate() {
+        out.push(History {
+            real_history: true,
+            id: format!("sys-wipe-tmp-{}{}", i, if i == 0 { "" } else { "x" }),
+            snippets: vec![
+                plain("export VE1=before; VS1=kept; f1() { echo one; }", "export-define"),
+                plain(wipe, "wipe-tmp"),
+                plain("VE1=\"$VE1 after\"; cd d2", "export-modify"),
+                plain("true", "use"),
+            ],
+        });
+    }
     out
 }
 
@@ -428,6 +455,7 @@ fn run_through_scrut(h: &History) -> Result<Trace, String> {
     let l = layout_with(spaced).map_err(|e| e.to_string())?;
     let mut env: BTreeMap<String, String> = BTreeMap::new();
     env.insert("VS_BASE".into(), l.work.to_string_lossy().into_owned());
+    env.insert("VS_TMP".into(), l.tmp.to_string_lossy().into_owned());
     env.insert("HOME".into(), "/nonexistent-home".into());
     env.insert("CDPATH".into(), "".into());
     env.insert("GREP_OPTIONS".into(), "".into());
@@ -497,6 +525,7 @@ fn run_reference(h: &History) -> Result<Trace, String> {
     let mut child = Command::new("/bin/bash")
         .current_dir(&l.work)
         .env("VS_BASE", &l.work)
+        .env("VS_TMP", &l.tmp)
         .env("HOME", "/nonexistent-home")
         .env("CDPATH", "")
         .env("GREP_OPTIONS", "")
